@@ -332,7 +332,24 @@ SEEDED["C18"] = [
     (PC, "h_el[i] = ((p[ix_tmp] * h[ix_tmp]**(5/3)).sum() / p[ix_tmp].sum())**(3/5)", "h_el[i] = ((p[ix_tmp] * h[ix_tmp]**(5/3)).sum() / p[ix_tmp].sum())**(5/3)", "E1m"),
     (PC, "    if len(splits) == 0:\n        return [numpy.arange(0, N)]", "    pass", "E2"),
 ]
+SEEDED["C18"] += [
+    (PC, "for i in range(2*L-1)])", "for i in range(2*L-2)])", "E4.moments"),
+    (PC, "p * h**(i) for", "p * h**(i+1) for", "E4.moments"),
+    (PC, "return mom.sum(1)", "return mom.sum(0)", "E4.moments"),
+    (PC, "- mom0)**2).sum()", "- mom0)).sum()", "E4.objective"),
+    (PC, "    h = args[:L]\n    cn2 = args[L:]\n    return ((", "    h = args[:L]\n    cn2 = args[L-1:]\n    return ((", "E4.objective"),
+    (PC, "return res[:L]*h_scaling, res[L:] * cn2_scaling", "return res[:L]*cn2_scaling, res[L:] * h_scaling", "E4.unscale"),
+    (PC, "x0 = numpy.hstack([guess_h/h_scaling, guess_cn2/cn2_scaling])", "x0 = numpy.hstack([guess_cn2/cn2_scaling, guess_h/h_scaling])", "E4.call"),
+    (PC, "bounds = [(0,None) for i in range(2*L)]", "bounds = [(0,None) for i in range(L)]", "E4.call"),
+    (PC, "bounds = [(0,None) for i in range(2*L)]", "bounds = [(None,None) for i in range(2*L)]", "E4.call"),
+    (PC, "mom0 = _moments(h/h_scaling, p/cn2_scaling, L)", "mom0 = _moments(h, p/cn2_scaling, L)", "E4.call"),
+    (PC, "res = minimize(_moments_minfunc, x0, args=(L, mom0), bounds = bounds)['x']\n    return res[:L]*h_scaling, res[L:] * cn2_scaling\n", "res = minimize(_moments_minfunc, x0, args=(L, mom0), jac=_moments_minfunc_jac, bounds = bounds)['x']\n    return res[:L]*h_scaling, res[L:] * cn2_scaling\n\ndef _moments_minfunc_jac(args, L, mom0):\n    h = args[:L]\n    cn2 = args[L:]\n    n = numpy.arange(2*L-1)[:,None]\n    resid = 2 * (_moments(h, cn2, L) - mom0)[:,None]\n    dh = (resid * n * cn2 * h**(n-1.)).sum(0)\n    dcn2 = (resid * h**n).sum(0)\n    return numpy.hstack([dh, dcn2])\n", "E4.total-on-box"),
+]
 BENIGN["C18"] = [
+    (PC, "p * h**(i) for i in range(2*L-1)])", "h**k * p for k in range(2*L - 1)])"),
+    (PC, "return mom.sum(1)", "return mom.sum(axis=1)"),
+    (PC, "return res[:L]*h_scaling, res[L:] * cn2_scaling", "return h_scaling*res[0:L], cn2_scaling*res[L:]"),
+    (PC, "res = minimize(_moments_minfunc, x0, args=(L, mom0), bounds = bounds)['x']\n    return res[:L]*h_scaling, res[L:] * cn2_scaling\n", "res = minimize(_moments_minfunc, x0, args=(L, mom0), jac=_moments_minfunc_jac, bounds = bounds)['x']\n    return res[:L]*h_scaling, res[L:] * cn2_scaling\n\ndef _moments_minfunc_jac(args, L, mom0):\n    h = args[:L]\n    cn2 = args[L:]\n    n = numpy.arange(2*L-1)[:,None]\n    resid = 2 * (_moments(h, cn2, L) - mom0)[:,None]\n    dh = (resid * n * cn2 * h**numpy.maximum(n-1., 0)).sum(0)\n    dcn2 = (resid * h**n).sum(0)\n    return numpy.hstack([dh, dcn2])\n"),
     (PC, "alt_bins = h.min() + hstep * numpy.arange(L)", "alt_bins = numpy.linspace(h.min(), h.max(), L, endpoint=False)"),
 ]
 
@@ -367,7 +384,21 @@ SEEDED["C20"] = [
     (SC, "positions = self.subap_positions[wfs_n].copy()", "positions = self.gs_positions", "P1"),
     (ZER, "    Zs = zernikeArray(len(zCoeffs), size, norm=norm, rot=rot)\n", "    Zs = zernikeArray(len(zCoeffs), size, norm=norm, rot=rot)\n    zCoeffs = numpy.asarray(zCoeffs)\n    zCoeffs[numpy.isnan(zCoeffs)] = 0\n", "P1"),
 ]
+SEEDED["C20"] += [
+    (FT, "    N = data.shape[-1]\n    DATA = numpy.fft.fftshift(\n            numpy.fft.ifft2(", "    N = data.shape[0]\n    DATA = numpy.fft.fftshift(\n            numpy.fft.ifft2(", "P3"),
+    (FT, "                    numpy.fft.ifftshift(data, axes=(-1,-2))\n                    ), axes=(-1,-2)", "                    numpy.fft.ifftshift(data)\n                    ), axes=(-1,-2)", "P3"),
+    (FT, "            axes=(-1)) * data.shape[-1] * delta_f", "            axes=(-1)) * len(data) * delta_f", "P3"),
+    (TPS, "tps.mean(-1)", "tps.mean(1)", "P3"),
+    (TPS, "[..., :int(n_frames/2), :]", "[:int(n_frames/2)]", "P3"),
+    (TPS, "numpy.sqrt(tps.shape[-1])", "numpy.sqrt(tps.shape[1])", "P3"),
+    (ATM, "def coherenceTime(cn2, v, lamda=500.E-9, axis=-1)", "def coherenceTime(cn2, v, lamda=500.E-9, axis=0)", "P3"),
+    (ATM, "Jh = (cn2*(h**(5./3.))).sum(axis)", "Jh = (cn2*(h**(5./3.))).sum()", "P3"),
+    (ATM, "(cn2*h**(5./6.)).sum(axis)", "numpy.sum(cn2*h**(5./6.), 0)", "P3"),
+]
 BENIGN["C20"] = [
+    (FT, "    N = data.shape[-1]\n    DATA = numpy.fft.fftshift(\n            numpy.fft.ifft2(", "    N = data.shape[-2]\n    DATA = numpy.fft.fftshift(\n            numpy.fft.ifft2(" ),
+    (TPS, "tps.mean(-1)", "numpy.mean(tps, axis=-1)"),
+    (ATM, "(cn2*h**(5./6.)).sum(axis)", "numpy.sum(cn2*h**(5./6.), axis=axis)"),
     (CEN, "    ref = ref - ref.min()\n", "    ref = numpy.array(ref)\n    ref -= ref.min()\n"),
     (CON, "    image = image / image.max()\n", "    image = image.copy()\n    image /= image.max()\n"),
 ]
